@@ -6,7 +6,7 @@
 From Cell2V Require Import Common.Tac Common.ListX Common.AList C01.Model.
 
 Definition is_marker (e : ev) : bool :=
-  match e with EDo | EIdle | EResp _ _ | ETick _ => true | _ => false end.
+  match e with EDo | EIdle | ECrash | EResp _ _ | ETick _ => true | _ => false end.
 
 (* the operation an event belongs to: the last marker before it *)
 Definition last_marker (tr : list ev) : option ev :=
@@ -180,7 +180,7 @@ Definition isnone {A} (o : option A) : bool := match o with None => true | _ => 
 
 Definition acc_idle (a : ast) (e : ev) : option ast :=
   match e with
-  | EDo | EIdle => Some (mkA (a_open a) (a_nt a) None MIdle)
+  | EDo | EIdle | ECrash => Some (mkA (a_open a) (a_nt a) None MIdle)
   | ETick now => Some (mkA (a_open a) (a_nt a) (Some now) MIdle)
   | EResp id k =>
       Some (mkA (a_open a) (a_nt a) None
